@@ -602,6 +602,33 @@ class Gen:
             L.append('  return %s;' % self.expr(ctx, 3)[0])
             L.append('}')
             self.pure.append((name, rt, pts))
+        # type punning through union members reached by different paths (6.5.2.3 fn 95): a store through one member must
+        # be seen by the next load through another; whole members, members of a nested struct, of a doubly nested struct,
+        # array elements; on a local union, the global one and through a pointer
+        puns = []
+        whole = [m for m in UL if '.' not in m[0] and '[' not in m[0]]
+        part = [m for m in UL if '.' in m[0] or '[' in m[0]]
+        for i in range(r.randint(2, 4)):
+            name = 'pun%d' % i
+            (wa, _), (wb, _) = r.choice(whole), r.choice(whole)
+            (pa, _), (pb, _) = r.choice(part), r.choice(part)
+            kind = r.randrange(4)
+            self.features.add('union-pun-function')
+            if kind == 0:      # local: whole, patch a part, reload whole
+                L.append('static u64 %s (u64 x, u64 y) { union U0 u; u.%s = x; u.%s = y; return (u64) u.%s ^ ((u64) u.%s << 1); }'
+                         % (name, wa, pa, wb, pb))
+            elif kind == 1:    # local: part, overwrite whole, reload the part
+                L.append('static u64 %s (u64 x, u64 y) { union U0 u; u.ll = 0; u.%s = y; u.%s = x; return (u64) u.%s + (u64) u.%s; }'
+                         % (name, pa, wa, pa, pb))
+            elif kind == 2:    # the global union
+                L.append('static u64 %s (u64 x, u64 y) { gu0.%s = x; gu0.%s = y; u64 t = (u64) gu0.%s; gu0.%s = (u64) gu0.%s + 1u; '
+                         'return t ^ (u64) gu0.%s; }' % (name, wa, pa, wb, pb, pa, wa))
+            else:              # through a pointer
+                L.append('static u64 %s_p (union U0 *p, u64 y) { u64 before = (u64) p->%s; p->%s = y; p->%s = (u64) p->%s ^ 5u; '
+                         'return before ^ (u64) p->%s; }' % (name, wa, pa, pb, pb, wb))
+                L.append('static u64 %s (u64 x, u64 y) { union U0 u; u.%s = x; return %s_p (&u, y) + (u64) u.%s; }' % (name, wa, name, wb))
+            puns.append(name)
+        self.puns = puns
         # struct-by-value functions and pointer procedures
         sfuncs, pprocs = [], []
         for i in range(r.randint(1, 3)):
@@ -677,6 +704,10 @@ class Gen:
                     body.append('%s (&%s, %s);' % (p[0], r.choice(tg)[0], self.cast('uint', self.expr(ctx, 1)[0])))
             if self.use_ext and r.random() < 0.3:
                 body += self.ext_stmt(ctx)
+            if r.random() < 0.3:
+                body.append('mix (%s ((u64)%s, (u64)%s));' % (r.choice(puns), self.expr(ctx, 1)[0], self.expr(ctx, 1)[0]))
+        for pn in puns:
+            body.append('mix (%s (0x1122334455667788ULL, 0x99aabbccddeeff01ULL));' % pn)
         # final checksum of every scalar object
         for lv, t in atoms:
             if lv.startswith('gstr'):
